@@ -133,8 +133,8 @@ fn low_value(r: &zlink_core::reply::Result<AnyRep, SvcError>) -> (Value, Option<
 /// Conforming reply streams only: at least one item, every item but the last continues, the
 /// stream ends afterwards (a `more` call whose service never says "last" has no defined end for a
 /// client).
-pub fn gen_conforming_stream(t: &mut crate::tape::Tape) -> CallSpec {
-    let n = 1 + t.draw(4);
+pub fn gen_conforming_stream(t: &mut crate::tape::Tape, max_items: usize) -> CallSpec {
+    let n = 1 + t.draw(max_items);
     let mut flags = vec![0u8; n - 1];
     flags.push(1 + t.draw(2) as u8);
     debug_assert!(flags[..n - 1].iter().all(|f| flag_of(*f) == Some(true)));
